@@ -1,6 +1,7 @@
 package main
 
 import (
+	"os"
 	"fmt"
 	"go/constant"
 	"go/token"
@@ -355,6 +356,28 @@ func c05Describe(v ssa.Value, l *RangeLoop, depth int) string {
 		return "local " + x.Comment
 	case *ssa.MakeInterface:
 		return c05Describe(x.X, l, depth+1)
+	case *ssa.Extract:
+		// one of several results of a small module helper (`nrows, ncols := ds.arrayShape(i)`):
+		// what it returns there, with its parameters standing for the arguments
+		if call, ok := x.Tuple.(*ssa.Call); ok && !call.Call.IsInvoke() {
+			h := call.Call.StaticCallee()
+			if isModuleFn(h) && len(h.Blocks) == 1 && len(h.Params) == len(call.Call.Args) {
+				if ret, ok := h.Blocks[0].Instrs[len(h.Blocks[0].Instrs)-1].(*ssa.Return); ok && x.Index < len(ret.Results) {
+					var set []ssa.Value
+					for k, q := range h.Params {
+						if _, has := c05Subst[q]; !has {
+							c05Subst[q] = c05Describe(call.Call.Args[k], l, depth+1)
+							set = append(set, q)
+						}
+					}
+					d := c05Describe(ret.Results[x.Index], l, depth+1)
+					for _, q := range set {
+						delete(c05Subst, q)
+					}
+					return d
+				}
+			}
+		}
 	}
 	return v.Name()
 }
@@ -431,6 +454,13 @@ func c05R2(p *Prog, r *Report) {
 					h := sc.Call.StaticCallee()
 					if inner, _ := singleReturn(h).(*ssa.Call); isModuleFn(h) && len(h.Blocks) == 1 && inner != nil && CalleeName(&inner.Call) == "fmt.Sprintf" {
 						path = []ssa.Instruction{sc}
+						// the helper's parameters stand for what this call passes
+						if len(h.Params) == len(sc.Call.Args) {
+							for k, q := range h.Params {
+								c05Subst[q] = c05Describe(sc.Call.Args[k], l, 0)
+								defer delete(c05Subst, q)
+							}
+						}
 						sc = inner
 					}
 				}
@@ -462,6 +492,9 @@ func c05R2(p *Prog, r *Report) {
 						}
 						sort.Strings(elems)
 						joined := strings.Join(elems, ";")
+						if os.Getenv("DLINT_DEBUG_C05") != "" {
+							fmt.Fprintf(os.Stderr, "C05 filename: patArg=%v patternVal=%v joined=%q dspElem=%q n=%d\n", patArg, patternVal, joined, dspElem, len(elems))
+						}
 						okF = patArg == patternVal && strings.Contains(joined, dspElem+".Name") && strings.Contains(joined, "const \""+ext[c.Name()]+"\"") && len(elems) == 2
 						got = "Sprintf(pattern; " + joined + ")"
 					}
